@@ -1035,6 +1035,9 @@ class Simulation:
                             f"Gradient not implemented for {n}."
                         )
 
+                # Ensure the electric fields are available.
+                self._ensure_efields()
+
                 # Compute back-propagating electric fields.
                 self._bcompute()
 
@@ -1200,6 +1203,16 @@ class Simulation:
         # the simulation was re-created through `from_dict` or `from_file`.
         return np.asarray(self._misfit)
 
+    def _ensure_efields(self):
+        """Compute the electric fields if they are not available (any more).
+
+        The responses can be there without the fields, for instance after
+        ``clean('keepresults')`` or if only the results were stored to disk.
+        """
+        if any(self._dict_efield[src][freq] is None
+               for src, freq in self._srcfreq):
+            self._compute([(None, None), ])
+
     def _bcompute(self):
         """Compute bfields asynchronously for all sources and frequencies."""
         from emg3d import _multiprocessing as _mp
@@ -1318,6 +1331,7 @@ class Simulation:
 
         # Ensure misfit has been computed (and therefore the electric fields).
         _ = self.misfit
+        self._ensure_efields()
 
         # Apply derivative-chain of property-map (copy to not overwrite).
         if vector.ndim == 3:
